@@ -57,6 +57,7 @@ Section Z.
       rewrite Hmi in Hm'. inversion Hm'; subst m; clear Hm'.
       cbn [map fst snd zkpok_verify_loop]. rewrite Ha. cbn [bind]. cbn [pv_value pv_com]. rewrite HN.
       rewrite (nisp2sec_complete_u n Hn CS a ai (pk_b pk) bi Hai Hb mi cmi _ _ _ HC Hpmi). cbn [bind negb].
+      rewrite (boudot_prove_E _ _ _ _ _ _ _ _ _ _ _ Hrp), Z.eqb_refl. cbn [negb].
       rewrite (boudot_complete n Hn a ai (pk_b pk) bi Hai Hb BP mi cmi 0 (max_x CS) _ _ _ Ht HC Hrp). cbn [bind negb].
       eapply IH. exact Hrest.
   Qed.
@@ -124,6 +125,7 @@ Section ZT.
         with (gp (pk_N pk) a0 a0i (c_rand C)) by (destruct (gp (pk_N pk) a0 a0i (c_rand C)); reflexivity).
       rewrite rem_mod_nonneg; [reflexivity| |exact HN]. apply Z.mul_nonneg_nonneg; apply gp_range; exact HN. }
     rewrite (nisp2sec_complete_u _ HN CS a0 a0i (pk_b pk) bi Ha0i Hbi (c_rand C) cr _ _ _ HCr Hpr). cbn [bind negb].
+    rewrite (boudot_prove_E _ _ _ _ _ _ _ _ _ _ _ Hrpr), Z.eqb_refl. cbn [negb].
     exact (boudot_complete _ HN a0 a0i (pk_b pk) bi Ha0i Hbi BP (c_rand C) cr 0 (max_r CS) _ _ _ Ht HCr Hrpr).
   Qed.
 End ZT.
